@@ -69,6 +69,19 @@ def main(argv):
             results.append(r)
     except gen.GenError as e:
         undecided.append('extraction: %s' % e)
+    # vacuity guard on every run: the admitted axioms of each unit must not prove `false`
+    canaries = []
+    seen_units = set()
+    for r in results:
+        if r.tool_error or (r.unit, r.mode) in seen_units:
+            continue
+        seen_units.add((r.unit, r.mode))
+        ok, detail = run.axiom_canary(r, workdir)
+        canaries.append(dict(unit=r.unit, mode=r.mode, ok=ok, detail=detail))
+        if ok is False:
+            undecided.append('vacuity: %s mode %s: %s' % (r.unit, r.mode, detail))
+        elif ok is None:
+            undecided.append('vacuity canary could not be evaluated for %s mode %s: %s' % (r.unit, r.mode, detail))
     # thorough: re-run with other solver seeds / rlimits: instability is reported as undecided, never as a violation
     stability = []
     if tier == 'thorough' and not undecided:
@@ -80,7 +93,9 @@ def main(argv):
                 r2 = run.run_unit(unit, mode, workdir, modules=modules, seed=s, tag='_s%d' % k, only=only)
                 stability.append(dict(unit=unit, mode=mode, smt_seed=s, verified=r2.verified, errors=r2.errors))
                 base = results[ui]
-                if (r2.errors == 0) != (base.errors == 0):
+                if r2.tool_error:
+                    undecided.append('stability run failed: %s' % r2.tool_error)
+                elif (r2.errors == 0) != (base.errors == 0) or r2.verified != base.verified:
                     undecided.append('unstable proof: %s mode %s flips under smt seed %d' % (unit, mode, s))
     # ---- classify ----
     scope_fns = set()
@@ -193,6 +208,7 @@ def main(argv):
                                            rewrites=v['rewrites'], in_scope=(k in scope_fns)) for k, v in sorted(fn_infos.items())],
             units=[dict(unit=r.unit, mode=r.mode, verified=r.verified, errors=r.errors, wall_s=round(r.wall_s, 2), generated=r.gen_path) for r in results],
             stability_runs=stability,
+            vacuity_canaries=canaries,
             known_findings=kf_reports,
             undecided=undecided,
             failed_obligations=[f.to_json() for _, f in fails],
